@@ -94,3 +94,23 @@ package crypto
 //@   call (*gorm.DB).Where #1 requires [explicit-condition-on-this-kid] arg(1) == any("kid = ?") && len(arg(2)) == 1 && arg(2)[0] == any(kid)
 //@   call (*gorm.DB).First #1 requires [looked-up-through-that-condition] arg(0) == ret(call (*gorm.DB).Where #1)
 //@   ensures [lookup-failure-is-reported] !isNilIface(ret(call (*gorm.DB).First #1).Error) ==> !isNilIface(result)
+
+// ---- C03: a signature for key id K is made with the key the key reference of K names NOW ----
+// Every lookup of the signer goes through the key reference table and the storage backend: nothing is
+// remembered between lookups (the reference of a kid may be re-pointed by Link / New / Migrate or by
+// another node on the same database).
+//@ func (*Crypto).findKeyReferenceByKid
+//@   trusted
+//@   benign
+//@   ensures isNilIface(result.1) ==> result.0 != nil
+//@ func (spi.Storage).GetPrivateKey
+//@   trusted
+//@   benign
+//@ func (*Crypto).getPrivateKey
+//@   prop C03
+//@   ensures [signer-of-the-current-key-reference] isNilIface(result.2) ==> result.1 == kid
+//@        && did(call (*Crypto).findKeyReferenceByKid #1) && isNilIface(ret(call (*Crypto).findKeyReferenceByKid #1).1) && arg(call (*Crypto).findKeyReferenceByKid #1, 2) == kid
+//@        && did(call (spi.Storage).GetPrivateKey #1) && isNilIface(ret(call (spi.Storage).GetPrivateKey #1).1) && result.0 == ret(call (spi.Storage).GetPrivateKey #1).0
+//@        && arg(call (spi.Storage).GetPrivateKey #1, 2) == ret(call (*Crypto).findKeyReferenceByKid #1).0.KeyName
+//@        && arg(call (spi.Storage).GetPrivateKey #1, 3) == ret(call (*Crypto).findKeyReferenceByKid #1).0.Version
+//@        && arg(call (spi.Storage).GetPrivateKey #1, 0) == client.backend
